@@ -116,7 +116,7 @@ def record_lattice(spec):
         s = sw[c2]
         mi = float(r.XY[q].imag) / s if s else 0.0
         m2 = float(r.M2[q])
-        m2scale = 65536 if m2 < 3e4 else (256 if m2 < 8e6 else 1)
+        m2scale = 65536 if m2 < 1.6e4 else (256 if m2 < 4e6 else 1)      # q saturates at 2^30
         return {"kind": kind, "L": int(r.L[q]), "D": D, "c2": c2, "K": int(r.K[q]), "navg": int(r.navg[q]), "m2scale": m2scale,
                 "S12": int(round(float(r.S12[q]))), "S2": int(round(float(r.S2[q]))),
                 "q": [traces.q(float(r.XX[q]), 65536), traces.q(float(r.YY[q]), 65536), traces.q(float(r.XY[q].real), 65536),
